@@ -92,36 +92,58 @@ def routes_equivalent_full : Prop :=
 def wOpen (file : List Byte) (off : Nat) : World := { file := file, off := off, openFds := [3, 7] }
 def shFd (mode : Mode) (k : Int) : Shim := { mode := mode, filedes := 3, fileoffset := k }
 
-/-- KF-C14-TRUNC-VIO: psf_ftruncate has no virtual-I/O branch — ftruncate (-1) fails, nothing is cut -/
-theorem truncate_vio_fails :
-    (step (openVio .w) { mem := [1, 2, 3, 4], mpos := 4 } (.truncate 2)).ret = -1 ∧
-    (step (openVio .w) { mem := [1, 2, 3, 4], mpos := 4 } (.truncate 2)).w.mem = [1, 2, 3, 4] ∧
-    (step (openVio .w) { mem := [1, 2, 3, 4], mpos := 4 } (.truncate 2)).sh.error = .system ∧
-    (step (shFd .w 0) (wOpen [1, 2, 3, 4] 4) (.truncate 2)).ret = 0 ∧
-    (step (shFd .w 0) (wOpen [1, 2, 3, 4] 4) (.truncate 2)).w.file = [1, 2] := by decide
+/-- psf_ftruncate through virtual I/O (repaired by 0001-fix-SFC_FILE_TRUNCATE…): SF_VIRTUAL_IO has no truncate callback, the
+    call is refused with -1 and NOTHING is touched — not the store, not its position, not the handle's error -/
+theorem truncate_vio_refused_cleanly (sh : Shim) (w : World) (n : Int) (hv : sh.virtualIo = true) :
+    (ftruncate sh w n).ret = -1 ∧ (ftruncate sh w n).w = w ∧ (ftruncate sh w n).sh = sh := by
+  unfold ftruncate; split <;> simp [hv]
 
-/-- KF-C14-TRUNC-EMBED: psf_ftruncate ignores fileoffset — the cut lands `fileoffset` bytes too early; here it removes
-    the whole embedded file and a byte of the enclosing container -/
-theorem truncate_embedded_ignores_offset :
+/-- the rule before the repair (KF-C14-TRUNC-VIO): ftruncate (-1) — the handle is left with SFE_SYSTEM -/
+theorem truncate_vio_old_rule :
+    (ftruncateOld (openVio .w) { mem := [1, 2, 3, 4], mpos := 4 } 2).ret = -1 ∧
+    (ftruncateOld (openVio .w) { mem := [1, 2, 3, 4], mpos := 4 } 2).sh.error = .system ∧
+    (ftruncate (openVio .w) { mem := [1, 2, 3, 4], mpos := 4 } 2).sh.error = .none := by decide
+
+/-- psf_ftruncate with fileoffset > 0 (repaired by 0002-fix-psf_ftruncate…): the cut lands at fileoffset + len, the bytes in
+    front of the embedded file stay (in general: `routes_equivalent_partial` and `embedded_window_lead`, which now cover truncate) -/
+theorem truncate_embedded_respects_offset :
     (step (shFd .w 3) (wOpen [9, 9, 9, 1, 2, 3, 4] 7) (.truncate 2)).ret = 0 ∧
-    (step (shFd .w 3) (wOpen [9, 9, 9, 1, 2, 3, 4] 7) (.truncate 2)).w.file = [9, 9] ∧
+    (step (shFd .w 3) (wOpen [9, 9, 9, 1, 2, 3, 4] 7) (.truncate 2)).w.file = [9, 9, 9, 1, 2] ∧
     (absStep ⟨[1, 2, 3, 4], 4⟩ (.truncate 2)).2.content = [1, 2] := by decide
 
+/-- the rule before the repair (KF-C14-TRUNC-EMBED): the cut landed `fileoffset` bytes too early — here it removed the whole
+    embedded file and a byte of the enclosing one -/
+theorem truncate_embedded_old_rule :
+    (ftruncateOld (shFd .w 3) (wOpen [9, 9, 9, 1, 2, 3, 4] 7) 2).ret = 0 ∧
+    (ftruncateOld (shFd .w 3) (wOpen [9, 9, 9, 1, 2, 3, 4] 7) 2).w.file = [9, 9] := by decide
+
+/-- what is still outside `Op.ok` (all by design or never issued): truncate through callbacks (refused), an unknown whence,
+    a seek in front of the window, psf_get_filelen after a parser has set filelength to the header's own size -/
 theorem routes_equivalent_full_fails : ¬ routes_equivalent_full := by
   intro h
   have := h [.truncate 2] (openVio .w) { mem := [1, 2, 3, 4], mpos := 4 } ⟨[1, 2, 3, 4], 4⟩ (by simp [Rel, openVio])
   revert this; decide
 
-/-- KF-C14-EMBED-SHORT: on an embedded READ handle the first psf_get_filelen (psf_open_file, before any container
-    parser has set `filelength`) answers the size of the whole descriptor, leading bytes included -/
-theorem filelen_first_call_counts_lead :
-    (step (shFd .r 3) (wOpen [9, 9, 9, 1, 2, 3, 4] 3) .filelen).ret = 7 ∧
+/-- repaired by 0003-fix-psf_get_filelen…: the first psf_get_filelen of an embedded READ handle (psf_open_file, before any
+    container parser has set `filelength`) answers the length of the embedded part, like every other route -/
+theorem filelen_fresh_embedded {sh : Shim} {w : World} {a : Abs} (hv : sh.virtualIo = false) (h : Rel sh w a)
+    (hm : sh.mode = .r) (hl : sh.filelength ≤ 0) : (getFilelen sh w).ret = a.content.length := by
+  have hok : Op.ok sh a .filelen = true := by simp [Op.ok, hm, hl]
+  have := (step_sim .filelen h hok).1
+  simp only [step, absStep] at this
+  exact (Prod.mk.inj this).1
+
+/-- the rule before the repair (KF-C14-EMBED-SHORT): the size of the whole descriptor, leading bytes included -/
+theorem filelen_first_call_old_rule :
+    (getFilelenOld (shFd .r 3) (wOpen [9, 9, 9, 1, 2, 3, 4] 3)).ret = 7 ∧
+    (getFilelen (shFd .r 3) (wOpen [9, 9, 9, 1, 2, 3, 4] 3)).ret = 4 ∧
     (absStep ⟨[1, 2, 3, 4], 0⟩ .filelen).1.1 = 4 := by decide
 
-/-- in general: the READ-mode answer is `filelength` once it is set, else the real size of the descriptor -/
+/-- in general: the READ-mode answer of an embedded handle is `filelength` once it is set, else the size behind the offset -/
 theorem filelen_read (sh : Shim) (w : World) (hv : sh.virtualIo = false) (hm : sh.mode = .r)
     (hval : w.valid sh.filedes = true) (hp : w.isPipe = false) :
-    (getFilelen sh w).ret = if sh.fileoffset > 0 ∧ sh.filelength > 0 then sh.filelength else (w.file.length : Int) := by
+    (getFilelen sh w).ret = if sh.fileoffset > 0 then (if sh.filelength > 0 then sh.filelength else (w.file.length : Int) - sh.fileoffset)
+                            else (w.file.length : Int) := by
   have h1 : ¬ ((w.file.length : Int) = -1) := by omega
   simp [getFilelen, hv, fstatSize, hval, hp, h1, hm]
 
@@ -143,7 +165,7 @@ theorem lseek_file (w : World) (d : Int) (off : Int) (wh : Nat) : (lseek w d off
   split; · rfl
   split <;> rfl
 
-/-- one step never changes a byte in front of `fileoffset` (covered operations; the truncate defect is the exception) -/
+/-- one step never changes a byte in front of `fileoffset` (covered operations, truncate included since 0002-fix) -/
 theorem step_lead {sh : Shim} {w : World} {a : Abs} (op : Op) (hv : sh.virtualIo = false) (h : Rel sh w a)
     (hok : Op.ok sh a op = true) :
     (step sh w op).w.file.take sh.fileoffset.toNat = w.file.take sh.fileoffset.toNat := by
@@ -173,8 +195,12 @@ theorem step_lead {sh : Shim} {w : World} {a : Abs} (op : Op) (hv : sh.virtualIo
     split; · rfl
     split <;> rfl
   | truncate n =>
-    simp only [Op.ok, hv, Bool.not_false, Bool.true_and, decide_eq_true_eq] at hok
-    simp [hok]
+    simp only [step, ftruncate, hv, Bool.false_eq_true, if_false, osTruncate, hval, hwp, Bool.not_true, Bool.or_self]
+    split; · rfl
+    have hn : (n + sh.fileoffset).toNat = k + n.toNat := by rw [hk]; omega
+    rw [hn]
+    simp only [hk, Int.toNat_natCast]
+    exact resize_take _ _ _ hkl
 
 /-- **embedded_window, lower edge**: for every covered operation sequence the bytes of the enclosing file in front of
     `fileoffset` are never modified, in any mode -/
@@ -327,7 +353,7 @@ theorem openFileEmbed_dnc (sh : Shim) (w : World) (hok : (openFileEmbed sh w).er
     cases hm : sh.mode with
     | r =>
       simp only [hm] at hok ⊢
-      by_cases h44 : sh.filelength < 44
+      by_cases h44 : sh.filelength < minEmbedded
       · simp [h44, failOpen] at hok
       · simp [h44]
     | w => simp only [ftell_dnc, fseek_dnc]
@@ -357,11 +383,21 @@ theorem embedded_rdwr_refused (sh : Shim) (w : World) (hk : sh.fileoffset > 0) (
     (openFileEmbed sh w).err = .noEmbeddedRdwr := by
   simp [openFileEmbed, hk, hm, failOpen]
 
-/-- KF-C14-EMBED-MIN44: an embedded read is refused when `filelength` (at that point: the size of the whole descriptor)
-    is below 44 — the size of a WAV header, whatever the container -/
+/-- an embedded read is refused when the part behind the offset is shorter than the smallest header that can be embedded
+    (AU, 24 bytes) — "supplied offset beyond end of file" -/
 theorem embedded_short_descriptor_refused (sh : Shim) (w : World) (hk : sh.fileoffset > 0) (hm : sh.mode = .r)
-    (hl : sh.filelength < 44) : (openFileEmbed sh w).err = .badOffset := by
-  simp [openFileEmbed, hk, hm, hl, failOpen]
+    (hl : sh.filelength < 24) : (openFileEmbed sh w).err = .badOffset := by
+  have : sh.filelength < minEmbedded := hl
+  simp [openFileEmbed, hk, hm, this, failOpen]
+
+/-- … and is let through from 24 bytes on (KF-C14-EMBED-MIN44, repaired by 0004-fix: the bound was 44, a WAV header, applied to
+    the whole descriptor, so that AU files below it were refused) -/
+theorem embedded_min_header_passes (sh : Shim) (w : World) (hk : sh.fileoffset > 0) (hm : sh.mode = .r)
+    (hl : 24 ≤ sh.filelength) : (openFileEmbed sh w).err = .none := by
+  have : ¬ sh.filelength < minEmbedded := by unfold minEmbedded; omega
+  simp [openFileEmbed, hk, hm, this]
+
+theorem min_embedded_old_rule : minEmbeddedOld = 44 ∧ minEmbedded = 24 := by decide
 
 /-- the embedding whitelist: with fileoffset > 0 the open survives iff the container is WAV, WAVEX, AIFF, AU (MPEG, FLAC) -/
 theorem embedded_whitelist (sh : Shim) (w : World) (major : Nat) (hk : sh.fileoffset > 0) :
@@ -476,10 +512,10 @@ example : OpsWithin 4 ⟨[1, 2, 3, 4] ++ [8, 8], 0⟩ [.read 1 2, .seek 1 1, .re
 example : 3 ∈ (fclose { filedes := 3, doNotClose := true } (wOpen [] 0)).w.openFds := by decide
 example : 3 ∉ (fclose { filedes := 3, doNotClose := false } (wOpen [] 0)).w.openFds := by decide
 example : 7 ∈ (fclose { filedes := 3, doNotClose := false } (wOpen [] 0)).w.openFds := by decide
-example : (openFd (wOpen demoFile 3) 3 .r false 0x01).err = .badOffset := by decide      -- 9 bytes < 44
+example : (openFd (wOpen demoFile 3) 3 .r false 0x01).err = .badOffset := by decide      -- 6 bytes behind the offset < 24
 example : (openFd (wOpen (List.replicate 50 0) 3) 3 .r false 0x01).err = .none ∧
           (openFd (wOpen (List.replicate 50 0) 3) 3 .r false 0x01).sh.fileoffset = 3 ∧
-          (openFd (wOpen (List.replicate 50 0) 3) 3 .r false 0x01).sh.filelength = 50 := by decide
+          (openFd (wOpen (List.replicate 50 0) 3) 3 .r false 0x01).sh.filelength = 47 := by decide
 example : (openFd (wOpen demoFile 3) 3 .w true 0x01).sh.fileoffset = 9 := by decide        -- write: appended at the end
 example : (openFd (wOpen demoFile 3) 3 .rw true 0x01).err = .noEmbeddedRdwr ∧
           3 ∉ (openFd (wOpen demoFile 3) 3 .rw true 0x01).w.openFds := by decide
